@@ -184,6 +184,26 @@ def run_hash_rules(ctx: Ctx, pfx: str):
         ctx.ob(f"{pfx}-H1", f"models.{c}.__eq__/defined", "__eq__" in ci.methods,
                "hash-derived __eq__ must be defined", node=ci.node, mod=m)
 
+    # the functions analysed below must be the functions that run: a decorator
+    # (memoisation, wrapping) replaces them
+    for c in classes + ["Resource"]:
+        ci = repo.classes.get(c)
+        if ci is None:
+            continue
+        for d in ("__hash__", "__eq__"):
+            fn = ci.methods.get(d)
+            if fn is not None:
+                ctx.ob(f"{pfx}-H0", f"models.{c}.{d}/undecorated", not fn.decorator_list,
+                       f"decorated dunder ({[norm(x) for x in fn.decorator_list]}): a wrapper (e.g. a memo) makes the hash depend on "
+                       "the object's history instead of its current value", node=fn, mod=m, nontrivial=False)
+        # a stored hash attribute is the same defect without a decorator
+        for d, fn in ci.methods.items():
+            if d in ("__hash__", "__eq__"):
+                for n in walk_local(fn):
+                    if isinstance(n, (ast.Attribute, ast.Subscript)) and isinstance(n.ctx, ast.Store):
+                        ctx.ob(f"{pfx}-H0", f"models.{c}.{d}/pure", False,
+                               "hash/equality must not store state on the object", node=n, mod=m)
+
     # H2/H3/H4 per __hash__
     n_value = 0
     for c in classes:
